@@ -61,6 +61,19 @@ CLAIMED["C17"] = dict(
          "Axioms: propext, Classical.choice, Quot.sound.",
     design="6/C17")
 
+CLAIMED["C04"] = dict(
+    engine="lean+corr_trie",
+    technique="Lean 4 model of the double-array trie with the xcheck choice as an explicit oracle; theorems on the model "
+              "(rejection, round trip; exact-set theorem in progress) + two-pass correspondence replaying the implementation's "
+              "own xcheck choices and comparing complete base/check/free states",
+    text="The model reproduces the implementation's exact array state after every operation of random histories with "
+         "relocations, clone/postcard round trips and rejected keys; the exact-set oracle and the structural invariant are "
+         "evaluated on the implementation; C04_reject/C04_roundtrip are proved, the full C04_statement is stated in Props/C04.lean.",
+    note="PARTIAL so far: C04_statement (exact set for every history and oracle) is stated but its proof (invariant + "
+         "relocation lemma) is not finished; relocating histories are covered at correspondence strength. serde/Clone modelled "
+         "as identity; find_labels_of order canonicalised. Axioms: propext, Classical.choice, Quot.sound.",
+    design="6/C04 + Appendix A")
+
 NOT_YET = "machinery for this property is not built yet in this round (work in progress; see DESIGN.md section 9)"
 
 
